@@ -24,13 +24,15 @@ pub struct ReadRes {
     pub err: Option<String>,
     pub declared_crc: u32,
     pub max_read_end: u64,
+    /// the harness stopped reading before EOF/error (output cap): nothing may be concluded from this read
+    pub gave_up: bool,
 }
 
 pub fn read_entry(store: &Shared, idx: usize, pw: Option<&[u8]>, policy: &Policy, bufs: &[u32], io_out: &mut Option<IoH>) -> ReadRes {
     let disk = SimDisk::new(store.clone(), policy.clone());
     let io = disk.io.clone();
     *io_out = Some(io.clone());
-    let mut res = ReadRes { open: Ok(()), bytes: vec![], err: None, declared_crc: 0, max_read_end: 0 };
+    let mut res = ReadRes { open: Ok(()), bytes: vec![], err: None, declared_crc: 0, max_read_end: 0, gave_up: false };
     let mut ar = match ZipArchive::new(disk) {
         Ok(a) => a,
         Err(e) => {
@@ -53,6 +55,7 @@ pub fn read_entry(store: &Shared, idx: usize, pw: Option<&[u8]>, policy: &Policy
         Ok(mut f) => {
             res.declared_crc = f.crc32();
             let (data, err, _) = read_all(&mut f, bufs, 64 << 20);
+            res.gave_up = read_gave_up();
             res.bytes = data;
             res.err = err.map(|e| format!("{:?}/{}", e.kind(), e));
         }
@@ -71,7 +74,7 @@ pub fn read_entry(store: &Shared, idx: usize, pw: Option<&[u8]>, policy: &Policy
 pub fn stream_entry(store: &Shared, idx: usize, policy: &Policy, bufs: &[u32], io_out: &mut Option<IoH>) -> ReadRes {
     let mut st = SimStream::new(store.clone(), policy.clone());
     *io_out = Some(st.inner.io.clone());
-    let mut res = ReadRes { open: Ok(()), bytes: vec![], err: None, declared_crc: 0, max_read_end: 0 };
+    let mut res = ReadRes { open: Ok(()), bytes: vec![], err: None, declared_crc: 0, max_read_end: 0, gave_up: false };
     let mut i = 0;
     loop {
         match zip::read::read_zipfile_from_stream(&mut st) {
@@ -79,6 +82,7 @@ pub fn stream_entry(store: &Shared, idx: usize, policy: &Policy, bufs: &[u32], i
                 if i == idx {
                     res.declared_crc = f.crc32();
                     let (data, err, _) = read_all(&mut f, bufs, 64 << 20);
+                    res.gave_up = read_gave_up();
                     res.bytes = data;
                     res.err = err.map(|e| format!("{:?}/{}", e.kind(), e));
                     return res;
@@ -138,8 +142,9 @@ pub struct RotCase {
 pub struct Bitrot;
 
 fn crc_oracle(r: &ReadRes, ae2: bool, what: &str, reader: &str) -> Result<bool, Verdict> {
-    // returns Ok(true) if an error surfaced
-    if r.open.is_err() || r.err.is_some() {
+    // returns Ok(true) if an error surfaced (or the read was abandoned at the harness's output cap: the
+    // property speaks of reads that complete)
+    if r.open.is_err() || r.err.is_some() || r.gave_up {
         return Ok(true);
     }
     if !ae2 && crc32(&r.bytes) != r.declared_crc {
@@ -648,6 +653,13 @@ impl Scenario for AesSc {
             if plain.is_empty() {
                 return Ok(()); // the property speaks of non-empty entries
             }
+            if r.gave_up {
+                // the damaged stream decodes to more than the harness is willing to read (a one-bit flip can
+                // turn a bzip2/deflate stream into a long run): end-of-file was never reached, so the
+                // "no later than end-of-file" obligation has not come due
+                ctx.probe("tamper:inconclusive_output_cap");
+                return Ok(());
+            }
             // completed read without error on a tampered non-empty entry
             let mac_never_requested = r.max_read_end <= mac_pos;
             let detail = format!("tampered AE-{version} entry (method {}, {} plaintext bytes) read to EOF without error, {} bytes returned ({}) || {what}", ent.method, plain.len(), r.bytes.len(), if r.bytes == plain { "equal to the original" } else { "DIFFERENT from the original" });
@@ -674,7 +686,7 @@ impl Scenario for AesSc {
                         ctx.sub_evals += 1;
                         let mut io = None;
                         let r = guard(|| read_entry(&store0, t, Some(&w.0), &c.read, &c.bufs, &mut io))?;
-                        if r.open.is_ok() && r.err.is_none() && !(plain.is_empty() && r.bytes.is_empty()) {
+                        if r.open.is_ok() && r.err.is_none() && !r.gave_up && !(plain.is_empty() && r.bytes.is_empty()) {
                             return Err(viol("C16/wrong-password-accepted", format!("wrong password read {} bytes to EOF without error", r.bytes.len())));
                         }
                         if r.open.is_ok() {
@@ -743,7 +755,7 @@ impl Scenario for AesSc {
                             guard(|| read_entry(&st, t, Some(&pw), &c.read, &c.bufs, &mut io))?
                         };
                         if version == 1 {
-                            if r.open.is_ok() && r.err.is_none() && !plain.is_empty() {
+                            if r.open.is_ok() && r.err.is_none() && !r.gave_up && !plain.is_empty() {
                                 return Err(viol("C16/ae1-crc-not-enforced", format!("AE-1 entry whose declared CRC is {lie:#010x} (real {real:#010x}) read {} bytes without error", r.bytes.len())));
                             }
                             ctx.probe("ae1_wrong_crc_rejected");
@@ -1049,6 +1061,7 @@ impl Scenario for ZipCryptoSc {
                             ctx.probe("non_colliding_password_accepted_at_open");
                         }
                     }
+                    (Ok(()), None) if r.gave_up => ctx.probe("wrong_password_inconclusive_output_cap"),
                     (Ok(()), None) => {
                         if r.bytes != plain {
                             return Err(viol("C15/wrong-password-accepted", format!("a {kind} wrong password read {} bytes to EOF without error (original has {})", r.bytes.len(), plain.len())));
